@@ -495,14 +495,18 @@ func (r *runner) one(src string, kind string, feats map[string]bool) {
 // error with registers on) get their own signatures; anything else is shrunk and signed by construct.
 func (r *runner) regDisagreement(src string, off, on implRes, mo string) {
 	c := r.c
-	if on.class == "E" {
+	// the register mode's error, as the outcome or caught by catch() and then printed / returned as text
+	raised := func(msg string) bool {
+		return strings.Contains(on.val, msg) || strings.Contains(string(on.out), msg) || strings.Contains(on.obs, Hx([]byte(msg)))
+	}
+	if on.class == "E" || raised("register assignment of non integer") || raised("not a var REGISTER") {
 		kind := ""
 		switch {
-		case strings.Contains(on.val, "register assignment of non integer"):
+		case raised("register assignment of non integer"):
 			kind = "reg-assign-nonint"
-		case strings.Contains(on.val, "not a var REGISTER"):
+		case raised("not a var REGISTER"):
 			kind = "reg-name-as-inner-loopvar"
-		case strings.Contains(on.val, "identifier not found"):
+		case on.class == "E" && strings.Contains(on.val, "identifier not found"):
 			kind = "reg-name-not-bound"
 		}
 		if kind != "" {
@@ -519,6 +523,15 @@ func (r *runner) regDisagreement(src string, off, on implRes, mo string) {
 	}
 	sprog, _ := parseProgram(small)
 	simpl, smo, _, _ := r.bothMode(small, false)
+	// an error of the register mode swallowed by catch() may only become visible once the program is shrunk
+	// (catch(f()).err -> catch(f()) shows the text)
+	for msg, kind := range map[string]string{"register assignment of non integer": "reg-assign-nonint", "not a var REGISTER": "reg-name-as-inner-loopvar"} {
+		if strings.Contains(simpl.val, msg) || strings.Contains(string(simpl.out), msg) || strings.Contains(simpl.obs, Hx([]byte(msg))) {
+			c.Fail("registers-on:"+kind+":on=error", "EVAL "+Hx([]byte(small)),
+				fmt.Sprintf("registers on: the error %q is raised and caught in %q; registers off and reference: %s", msg, small, clip(smo, 120)))
+			return
+		}
+	}
 	c.Fail("registers-on:"+constructs(sprog)+":"+pair, "EVAL "+Hx([]byte(small)),
 		fmt.Sprintf("program %q with the default settings (registers on): %s (%s), reference %s; found as %q", small, simpl.obs, simpl.val, smo, clip(src, 300)))
 }
@@ -778,6 +791,10 @@ var corpus = []string{
 	`m={9223372036854775808.0:"big", 1:"one", 9223372036854775807:"max"}; for kv=m{print(kv.value,"")}; first(m).value`,
 	`[(-9223372036854775807-1) >= -9223372036854775808.0, (-9223372036854775807-1) > -9223372036854775808.0, -9223372036854777856.0 < (-9223372036854775807-1), 9223372036854774784.0 < 9223372036854775807, 9223372036854777856.0 > 9223372036854775807]`,
 	`[9007199254740993 > 9007199254740992.0, 9007199254740993 == 9007199254740992.0, 9007199254740993 < 9007199254740994.0, [9007199254740993] <= [9007199254740992.0], -9007199254740993 < -9007199254740992.0]`,
+	`x=1; g=func(a,b,c,d,e){a+b+c+d+e+x}; f=func(n){g(n,0,0,0,0)}; println(f(1)); x=10; println(f(1))`,
+	`cnt=0; note=func(..){cnt=cnt+1; len(..)}; step=func(n){for i=n{note(i,1,2,3,4)}; n}; step(3); println(cnt); step(3); println(cnt)`,
+	`x=1; g=func(a,b,c,d){a+b+c+d+x}; f=func(n){g(n,0,0,0)}; println(f(1)); x=10; println(f(1))`,
+	`x=1; g=func(){x}; f=func(n){g()+n}; println(f(1)); x=10; println(f(1))`,
 	`table = func(n){for i = n {println("row", i, i*i)}; n}; a = table(6000); b = table(6000); println("done", a, b)`,
 	`f=func(a){a[0]/2}; x=[3,1,1,1,1,1,1,1,1,1]; y=[3.0,1,1,1,1,1,1,1,1,1]; println(x==y, f(x), f(y), f(x))`,
 	`f=func(m){[m[0]/2, m[0]==3]}; x={0:3,1:1,2:2,3:3,4:4}; y={0:3.0,1:1,2:2,3:3,4:4}; println(f(x), f(y))`,
@@ -787,6 +804,7 @@ var corpus = []string{
 	`id = x => x; g = func(n) { r = 0; for i = n { r = r + (i * id(i = i + 1)) }; r }; println(g(4))`,
 	`id = x => x; h = func(a, b) { [a - id(a = b), a] }; println(h(10, 3))`,
 	`f = func(n) { n + (n = 5) }; [f(1), func(n){ n * -(n = 3) }(2), func(n){ [n, n = 7, n] }(1)]`,
+	`f1=func(p2,p3,p4){p3={"value":2}}; r27=catch(f1(3,4,4)); println(r27.err)`,
 	`func f(n){n="a";n};f(1)`, `for i=3{i="x"};1`, `func f(n){for n=0:3{};n};f(7)`,
 	`for i=3{};i`, `func g(){i};for i=3{print(g())}`,
 	`for c = "a\xffb" { print(len(c)) }`, `s="\xffz"; println(len(first(s)), len(rest(s)))`, `rest("a\xffb")`, `rest("\xc3\xa9")`,
@@ -1114,9 +1132,9 @@ func runC01(c *Ctx) {
 		r.one(src, "factory", g.feats)
 	}
 	// int/float comparisons at the edges of int64 and of the 53-bit mantissa; variadic calls with nested last arguments
-	nedge := 3600
+	nedge := 4000
 	if c.Thorough() {
-		nedge = 30000
+		nedge = 33000
 	}
 	for i := 0; i < nedge; i++ {
 		g := newGen(c.R, false)
